@@ -1456,7 +1456,9 @@ func retOp(e ast.Expr, what string) int {
 func nothingFacts(repo string) {
 	f := parseFile(repo, "benchmath/anone.go")
 	sf := parseFile(repo, "benchmath/sample.go")
-	ms := funcDecl(f, "medianSamples")
+	// since fix F25 the loop lives in medianSamplesAbove(confidence, have); medianSamples delegates
+	ms := funcDecl(f, "medianSamplesAbove")
+	msOuter := funcDecl(f, "medianSamples")
 	mc := funcDecl(f, "medianCI")
 	us := funcDecl(f, "uTestSamples")
 	cmp := methodDecl(f, "assumeNothing", "Compare")
@@ -1537,7 +1539,39 @@ func nothingFacts(repo string) {
 		die("medianSamples: loop header")
 	}
 	mcodes := map[string]int{"n": 0, "limit": 1, "ci.LoOrder": 2, "ci.HiOrder": 3}
-	pf("def medianLimit : Nat := %s\ndef medianStart : Nat := %s\n", limit.natVal("limit"), mustNum(init.Rhs[0], "medianSamples start").natVal("start"))
+	// loop start: max(<start>, have+<step>)
+	mfun, margs, ok := callOf(init.Rhs[0])
+	if !ok || mfun != "max" || len(margs) != 2 {
+		die("medianSamplesAbove: loop start is not max(start, have+step): %s", src(init.Rhs[0]))
+	}
+	hb, ok := unparen(margs[1]).(*ast.BinaryExpr)
+	if !ok || hb.Op != token.ADD || !isIdent(hb.X, "have") {
+		die("medianSamplesAbove: second operand of max is not have+step: %s", src(margs[1]))
+	}
+	pf("def medianLimit : Nat := %s\ndef medianStart : Nat := %s\n", limit.natVal("limit"), mustNum(margs[0], "medianSamples start").natVal("start"))
+	pf("/-- the loop starts at max(medianStart, have + medianHaveStep) -/\ndef medianHaveStep : Nat := %s\n", mustNum(hb.Y, "medianSamplesAbove step").natVal("step"))
+	// medianSamples(confidence) = medianSamplesAbove(confidence, <have>)
+	var delegate *num
+	ast.Inspect(msOuter.Body, func(n ast.Node) bool {
+		if fun, args, ok := callOfNode(n); ok && fun == "medianSamplesAbove" && len(args) == 2 && isIdent(args[0], "confidence") {
+			v := mustNum(args[1], "medianSamples delegate")
+			delegate = &v
+		}
+		return true
+	})
+	if delegate == nil || len(msOuter.Body.List) != 1 {
+		die("medianSamples: does not just return medianSamplesAbove(confidence, <have>)")
+	}
+	pf("/-- medianSamples(c) = medianSamplesAbove(c, medianDelegateHave) -/\ndef medianDelegateHave : Nat := %s\n", delegate.natVal("have"))
+	// Summary asks for a size above the one at hand
+	sumHave := false
+	ast.Inspect(sum.Body, func(n ast.Node) bool {
+		if fun, args, ok := callOfNode(n); ok && fun == "medianSamplesAbove" && len(args) == 2 && isIdent(args[0], "confidence") && src(args[1]) == "len(s.Values)" {
+			sumHave = true
+		}
+		return true
+	})
+	pf("/-- Summary calls medianSamplesAbove(confidence, len(s.Values)) -/\ndef summaryNeedAboveLen : Bool := %v\n", sumHave)
 	pf("/-- operand codes of the medianSamples conditions: %s -/\ndef medianCodes : Unit := ()\n", codeDoc(mcodes))
 	emitCond("medianLoopCond", "loop continues", loop.Cond, mcodes)
 	mfound := mustIf(loop.Body, "medianSamples found", has("ci.LoOrder"))
